@@ -57,6 +57,10 @@ class RuleResult:
         if isinstance(construct, ast.AST):
             construct = norm(construct)
         o = Obligation(self.rule, site, construct, status, detail, reason)
+        if status == "violation":
+            for old in self.obligations:
+                if old.status == "violation" and old.key() == o.key():
+                    return old  # one report per (rule, site, construct)
         self.obligations.append(o)
         return o
 
